@@ -96,6 +96,8 @@ pub fn adjust(cfg: &mut SwarmCfg, tier: &str, r: &mut Prng) {
             cfg.oracles = sv(&["agreement", "kdf-model", "record-crypto"]);
             cfg.faults = sv(&["N-REORD", "N-RACE"]);
             cfg.knobs.push(("psk".into(), 1));
+            cfg.knobs.push(("psk-mixed".into(), 1));
+            setw(cfg, "write", 10);
             setw(cfg, "commit", 16);
             setw(cfg, "propose", 10);
             setw(cfg, "send_app", 12);
@@ -545,6 +547,13 @@ pub fn adjust_commit(w: &mut World, _p: usize, _g: usize, spec: &mut CommitSpec)
             if !spec.res_psks.contains(&back) {
                 spec.res_psks.push(back);
             }
+        }
+    }
+    if w.cfg.knob("psk-mixed").is_some() && w.prng.chance(1, 3) {
+        // a resumption PSK of a recent epoch next to the external ones (every member still retains it)
+        let latest = w.groups[_g].log.len() as u64;
+        if latest >= 1 {
+            spec.res_psks.push(0);
         }
     }
     if w.cfg.knob("psk") == Some(1) && w.prng.chance(1, 4) {
